@@ -281,7 +281,7 @@ def inline_self_methods(ci, expr, depth=0):
     return Tr().visit(_copy.deepcopy(expr))
 
 
-def splice_self_calls(ci, fnode, depth=0):
+def splice_self_calls(ci, fnode, depth=0, module=None):
     """statement-level inlining of private helper methods of the same class, so that path / ownership rules over a method see
     through `split a long method`:
         self._step(a, b)          (expression statement; helper returns nothing)      ->  p1 = a; p2 = b; <body>
@@ -292,11 +292,26 @@ def splice_self_calls(ci, fnode, depth=0):
         return fnode
     out = _copy.deepcopy(fnode) if depth == 0 else fnode
 
+    module = module if module is not None else getattr(ci, "module", None)
+    local_defs_ = {n_.name: n_ for n_ in fnode.body if isinstance(n_, ast.FunctionDef)} if depth == 0 else {}
+
+    class _Fn:
+        """module-level / nested function seen through the interface the splicer uses for methods"""
+        def __init__(self, node):
+            self.node, self.plain = node, True
+
     def helper_of(call):
-        if not (isinstance(call, ast.Call) and isinstance(call.func, ast.Attribute) and isinstance(call.func.value, ast.Name) and
-                call.func.value.id == "self" and call.func.attr.startswith("_") and not call.func.attr.startswith("__")):
+        if not isinstance(call, ast.Call):
             return None
-        m = ci.find_method(call.func.attr)
+        m = None
+        if ci is not None and isinstance(call.func, ast.Attribute) and isinstance(call.func.value, ast.Name) and \
+                call.func.value.id == "self" and call.func.attr.startswith("_") and not call.func.attr.startswith("__"):
+            m = ci.find_method(call.func.attr)
+        elif isinstance(call.func, ast.Name) and call.func.id in local_defs_:
+            m = _Fn(local_defs_[call.func.id])
+        elif isinstance(call.func, ast.Name) and call.func.id.startswith("_") and module is not None and \
+                getattr(module, "functions", {}).get(call.func.id) is not None and module.functions[call.func.id].cls is None:
+            m = _Fn(module.functions[call.func.id].node)
         if m is None or m.node is fnode or m.node.args.vararg or m.node.args.kwarg or any(isinstance(a, ast.Starred) for a in call.args):
             return None
         if any(isinstance(y, (ast.Yield, ast.YieldFrom)) for y in ast.walk(m.node)):
@@ -304,7 +319,8 @@ def splice_self_calls(ci, fnode, depth=0):
         return m
 
     def bind(m, call):
-        params = [a.arg for a in m.node.args.posonlyargs + m.node.args.args][1:]
+        plain = getattr(m, "plain", False) or any(isinstance(d_, ast.Name) and d_.id == "staticmethod" for d_ in m.node.decorator_list)
+        params = [a.arg for a in m.node.args.posonlyargs + m.node.args.args][0 if plain else 1:]
         b = {}
         for k, a in enumerate(call.args):
             if k < len(params):
@@ -312,9 +328,10 @@ def splice_self_calls(ci, fnode, depth=0):
         for kw in call.keywords:
             if kw.arg:
                 b[kw.arg] = kw.value
-        pos = (m.node.args.posonlyargs + m.node.args.args)[1:]
+        pos = (m.node.args.posonlyargs + m.node.args.args)
         for a, d in zip(pos[len(pos) - len(m.node.args.defaults):], m.node.args.defaults):
-            b.setdefault(a.arg, d)
+            if a.arg in params:
+                b.setdefault(a.arg, d)
         if any(p_ not in b for p_ in params):
             return None
         return [ast.Assign(targets=[ast.Name(id=p_, ctx=ast.Store())], value=_copy.deepcopy(v_)) for p_, v_ in b.items()
@@ -336,7 +353,7 @@ def splice_self_calls(ci, fnode, depth=0):
                     if pre is not None:
                         body = [b for b in body_of(m) if not (isinstance(b, ast.Return) and b.value is None)]
                         tmp = ast.FunctionDef(name="_", args=m.node.args, body=body or [ast.Pass()], decorator_list=[], returns=None, type_comment=None)
-                        tmp = splice_self_calls(ci, tmp, depth + 1)
+                        tmp = splice_self_calls(ci, tmp, depth + 1, module)
                         res.extend(splice(pre) + tmp.body)
                         done = True
             elif isinstance(s, ast.Assign) and len(s.targets) == 1 and isinstance(s.targets[0], ast.Name):
@@ -348,8 +365,20 @@ def splice_self_calls(ci, fnode, depth=0):
                         pre = bind(m, s.value)
                         if pre is not None:
                             tmp = ast.FunctionDef(name="_", args=m.node.args, body=body[:-1] or [ast.Pass()], decorator_list=[], returns=None, type_comment=None)
-                            tmp = splice_self_calls(ci, tmp, depth + 1)
+                            tmp = splice_self_calls(ci, tmp, depth + 1, module)
                             res.extend(splice(pre) + tmp.body + [ast.Assign(targets=[s.targets[0]], value=body[-1].value)])
+                            done = True
+            elif isinstance(s, ast.Return) and s.value is not None:
+                m = helper_of(s.value)
+                if m is not None:
+                    body = body_of(m)
+                    rets = [r for b in body for r in ast.walk(b) if isinstance(r, ast.Return)]
+                    if body and isinstance(body[-1], ast.Return) and body[-1].value is not None and len(rets) == 1:
+                        pre = bind(m, s.value)
+                        if pre is not None:
+                            tmp = ast.FunctionDef(name="_", args=m.node.args, body=body[:-1] or [ast.Pass()], decorator_list=[], returns=None, type_comment=None)
+                            tmp = splice_self_calls(ci, tmp, depth + 1, module)
+                            res.extend(splice(pre) + tmp.body + [ast.Return(value=body[-1].value)])
                             done = True
             if done:
                 continue
